@@ -209,7 +209,9 @@ class World:
             p = rng.choice(files)
             st = os.lstat(p)
             data = open(p, "rb").read()
-            newd = data + b"+" if len(data) < 3 else data[:-1]
+            # always grow: shrinking and growing again between two backups would bring back an earlier size with other bytes under the same
+            # identity, which is outside the property's assumption (and outside F6's class: same identity, DIFFERENT size)
+            newd = data + b"+"
             with open(p, "r+b") as f:
                 f.truncate(0)
                 f.write(newd)
